@@ -283,6 +283,26 @@ def bounded_native(ck):
                     if not ok:
                         fails.append({"obligation": "input.types", "clause": "integers, float32 values and arrays of them are evaluated like the float64 numbers they denote (scalars and arrays alike)",
                                       "input": {"function": nm + "." + fname, "x": repr(x)[:80], "type": type(x).__name__ + (":" + str(x.dtype) if hasattr(x, "dtype") else "")}, "observed": obs})
+        # memory layout is not part of the value: Fortran-ordered, transposed, strided and 3-d views give, element by element, what the
+        # C-contiguous array of the same numbers gives
+        for mod, nm in ((PR, n1), (AM, n2)):
+            for fname, base in (("us_std_atm_altitude_from_pressure", np.array([[101325.0, 60000.0, 22632.0, 9000.0], [5474.0, 868.0, 110.0, 66.0], [3.9, 0.37, 30000.0, 1.0]])),
+                                ("us_std_atm_pressure_from_altitude", np.array([[0.0, 5.0, 11.0, 15.0], [20.0, 32.0, 47.0, 51.0], [71.0, 84.0, 100.0, 2.5]]))):
+                f = getattr(mod, fname)
+                want = np.asarray(f(base.copy()), dtype=float)
+                views = (("Fortran-ordered copy", np.asfortranarray(base.copy()), lambda r: r), ("transposed view", np.ascontiguousarray(base.T).T, lambda r: r),
+                         ("every second column of a wider array", np.repeat(base, 2, axis=1)[:, ::2], lambda r: r), ("3-d Fortran-ordered", np.asfortranarray(base.reshape(3, 2, 2).copy()), lambda r: np.asarray(r).reshape(3, 4)))
+                for vname, x, back in views:
+                    n += 1
+                    try:
+                        got = back(np.asarray(f(x), dtype=float))
+                        ok = got.shape == want.shape and np.array_equal(got, want, equal_nan=True)
+                        obs = {"this layout": np.asarray(got).ravel()[:6].tolist(), "C-contiguous": want.ravel()[:6].tolist()}
+                    except Exception as ex:
+                        ok, obs = False, "raised %r" % ex
+                    if not ok:
+                        fails.append({"obligation": "input.layout", "clause": "the result depends on the numbers in the array, not on its memory layout",
+                                      "input": {"function": nm + "." + fname, "layout": vname, "values (C order)": base.ravel().tolist()}, "observed": obs})
         # limits
         for mod, nm in ((PR, n1), (AM, n2)):
             n += 2
